@@ -1,0 +1,244 @@
+//! Verification hooks (cargo feature `tsrun_verif`, off by default).
+//!
+//! Pure observability for an external test harness: counters, a stale-handle
+//! event log and the name of the native function currently executing. Nothing in
+//! here changes what the interpreter does; with the feature off this module is
+//! not compiled at all.
+
+use std::cell::{Cell, RefCell};
+use std::collections::BTreeMap;
+use std::string::String;
+use std::sync::atomic::{AtomicU64, AtomicUsize, Ordering};
+use std::vec::Vec;
+
+// ───────────────────────────── H1: GC observability ─────────────────────────────
+
+/// A use of a `Gc` handle whose slot has been reclaimed (swept or eagerly pooled)
+/// since the handle was created.
+#[derive(Debug, Clone, PartialEq, Eq)]
+pub struct GcEvent {
+    /// `borrow`, `borrow_mut`, `clone`, `drop_reused`, `guard`, `trace`
+    pub kind: &'static str,
+    /// Linear slot index (chunk * 256 + index in chunk)
+    pub slot: usize,
+    /// Generation the handle was stamped with
+    pub handle_gen: u32,
+    /// Generation of the slot now
+    pub slot_gen: u32,
+    /// Whether the slot is in the free pool right now
+    pub pooled: bool,
+    /// Innermost native function executing when the event happened ("" = none)
+    pub site: String,
+}
+
+/// Counters maintained by the collector hooks.
+#[derive(Debug, Clone, Copy, Default, PartialEq, Eq)]
+pub struct GcCounters {
+    pub collections: u64,
+    pub swept: u64,
+    pub eager_pooled: u64,
+    pub slots_reused: u64,
+    pub guards_created: u64,
+    pub allocations: u64,
+}
+
+const MAX_EVENTS: usize = 4096;
+
+thread_local! {
+    static GC_EVENTS: RefCell<Vec<GcEvent>> = const { RefCell::new(Vec::new()) };
+    static GC_EVENT_TOTAL: Cell<u64> = const { Cell::new(0) };
+    static GC_COUNTERS: Cell<GcCounters> = const { Cell::new(GcCounters {
+        collections: 0, swept: 0, eager_pooled: 0, slots_reused: 0, guards_created: 0, allocations: 0,
+    }) };
+    static SITES: RefCell<Vec<String>> = const { RefCell::new(Vec::new()) };
+    static REENTRY_SITES: RefCell<BTreeMap<String, u64>> = const { RefCell::new(BTreeMap::new()) };
+    static LEX_TOKENS: Cell<u64> = const { Cell::new(0) };
+    static PARSE_ADVANCES: Cell<u64> = const { Cell::new(0) };
+    static OPS_EMITTED: Cell<u64> = const { Cell::new(0) };
+}
+
+pub(crate) fn gc_event(kind: &'static str, slot: usize, handle_gen: u32, slot_gen: u32, pooled: bool) {
+    GC_EVENT_TOTAL.with(|c| c.set(c.get() + 1));
+    let site = current_site();
+    GC_EVENTS.with(|e| {
+        if let Ok(mut e) = e.try_borrow_mut()
+            && e.len() < MAX_EVENTS
+        {
+            e.push(GcEvent {
+                kind,
+                slot,
+                handle_gen,
+                slot_gen,
+                pooled,
+                site,
+            });
+        }
+    });
+}
+
+pub(crate) fn gc_count(f: impl FnOnce(&mut GcCounters)) {
+    GC_COUNTERS.with(|c| {
+        let mut v = c.get();
+        f(&mut v);
+        c.set(v);
+    });
+}
+
+/// Drain the stale-handle event log of this thread.
+pub fn take_gc_events() -> Vec<GcEvent> {
+    GC_EVENTS.with(|e| core::mem::take(&mut *e.borrow_mut()))
+}
+
+/// Total number of stale-handle events seen on this thread (not capped).
+pub fn gc_event_total() -> u64 {
+    GC_EVENT_TOTAL.with(|c| c.get())
+}
+
+/// Collector counters of this thread.
+pub fn gc_counters() -> GcCounters {
+    GC_COUNTERS.with(|c| c.get())
+}
+
+/// Reset all thread-local logs and counters of this thread.
+pub fn reset_thread() {
+    GC_EVENTS.with(|e| e.borrow_mut().clear());
+    GC_EVENT_TOTAL.with(|c| c.set(0));
+    GC_COUNTERS.with(|c| c.set(GcCounters::default()));
+    REENTRY_SITES.with(|r| r.borrow_mut().clear());
+    LEX_TOKENS.with(|c| c.set(0));
+    PARSE_ADVANCES.with(|c| c.set(0));
+    OPS_EMITTED.with(|c| c.set(0));
+}
+
+// ───────────────────────────── H2: front-end work counters ─────────────────────────────
+
+#[inline]
+pub(crate) fn count_token() {
+    LEX_TOKENS.with(|c| c.set(c.get().wrapping_add(1)));
+}
+#[inline]
+pub(crate) fn count_advance() {
+    PARSE_ADVANCES.with(|c| c.set(c.get().wrapping_add(1)));
+}
+#[inline]
+pub(crate) fn count_emit() {
+    OPS_EMITTED.with(|c| c.set(c.get().wrapping_add(1)));
+}
+
+/// (tokens produced by the lexer incl. re-lexing, parser advances, bytecode ops emitted)
+pub fn frontend_work() -> (u64, u64, u64) {
+    (
+        LEX_TOKENS.with(|c| c.get()),
+        PARSE_ADVANCES.with(|c| c.get()),
+        OPS_EMITTED.with(|c| c.get()),
+    )
+}
+
+// ───────────────────────────── H3: VM work and re-entry ─────────────────────────────
+
+/// VM instructions executed (process-wide so a watchdog thread can read it).
+pub static VM_INSTRUCTIONS: AtomicU64 = AtomicU64::new(0);
+/// Current depth of nested `BytecodeVM::run` invocations (native re-entry).
+pub static REENTRY_DEPTH: AtomicUsize = AtomicUsize::new(0);
+/// Maximum of `REENTRY_DEPTH` since the last reset.
+pub static REENTRY_MAX: AtomicUsize = AtomicUsize::new(0);
+
+#[inline]
+pub(crate) fn count_instruction() {
+    VM_INSTRUCTIONS.fetch_add(1, Ordering::Relaxed);
+}
+
+pub(crate) fn enter_run() {
+    let d = REENTRY_DEPTH.fetch_add(1, Ordering::Relaxed) + 1;
+    REENTRY_MAX.fetch_max(d, Ordering::Relaxed);
+    let site = current_site();
+    REENTRY_SITES.with(|r| {
+        if let Ok(mut r) = r.try_borrow_mut() {
+            *r.entry(site).or_insert(0) += 1;
+        }
+    });
+}
+
+pub(crate) fn leave_run() {
+    REENTRY_DEPTH.fetch_sub(1, Ordering::Relaxed);
+}
+
+/// Guard object: `enter_run` on creation, `leave_run` on drop (also on unwind).
+pub(crate) struct RunScope;
+impl RunScope {
+    pub(crate) fn new() -> Self {
+        enter_run();
+        RunScope
+    }
+}
+impl Drop for RunScope {
+    fn drop(&mut self) {
+        leave_run();
+    }
+}
+
+/// Guard object: names the native function being executed.
+pub(crate) struct SiteScope;
+impl SiteScope {
+    pub(crate) fn new(name: &str) -> Self {
+        SITES.with(|s| {
+            if let Ok(mut s) = s.try_borrow_mut() {
+                s.push(String::from(name));
+            }
+        });
+        SiteScope
+    }
+}
+impl Drop for SiteScope {
+    fn drop(&mut self) {
+        SITES.with(|s| {
+            if let Ok(mut s) = s.try_borrow_mut() {
+                s.pop();
+            }
+        });
+    }
+}
+
+/// Innermost native function currently executing on this thread ("" = none).
+pub fn current_site() -> String {
+    SITES.with(|s| {
+        s.try_borrow()
+            .ok()
+            .and_then(|s| s.last().cloned())
+            .unwrap_or_default()
+    })
+}
+
+/// For every native function name: how often the VM was re-entered (nested
+/// `BytecodeVM::run`) while that native was the innermost one executing.
+pub fn reentry_sites() -> BTreeMap<String, u64> {
+    REENTRY_SITES.with(|r| r.borrow().clone())
+}
+
+/// Reset the process-wide VM counters.
+pub fn reset_vm_counters() {
+    VM_INSTRUCTIONS.store(0, Ordering::Relaxed);
+    REENTRY_MAX.store(REENTRY_DEPTH.load(Ordering::Relaxed), Ordering::Relaxed);
+}
+
+// ───────────────────────────── H4: quiescence summary ─────────────────────────────
+
+/// Read-only summary of the interpreter's execution state (see
+/// `Interpreter::verif_quiescence`).
+#[derive(Debug, Clone, Default, PartialEq, Eq)]
+pub struct Quiescence {
+    pub env_is_global: bool,
+    pub env_guards: usize,
+    pub call_stack: usize,
+    pub active_vm: bool,
+    pub pending_orders: usize,
+    pub cancelled_orders: usize,
+    pub order_responses: usize,
+    pub suspended_for_order: bool,
+    pub wait_contexts: usize,
+    pub ready_queue: usize,
+    pub pending_program: bool,
+    pub pending_module_sources: usize,
+    pub exports_scratch: usize,
+    pub loaded_modules: usize,
+}
